@@ -251,6 +251,28 @@ def run(repo, res):
         res.check('C10-R4', '.used written in %s' % q, (rel, q) == (LINTER, 'use_name'), rel, line,
                   'the used flag may be set only by linter.use_name (found in %s)' % q)
     res.count('used_writers', len(writers), floor=2)
+    # the locals() special case marks exactly the bindings of the scope the call is made in
+    lint_fn = repo.module_func(LINTER, 'lint')
+    special = [n for n in ast.walk(lint_fn) if isinstance(n, ast.If) and "'locals'" in unparse(n.test)]
+    ok = False
+    detail = ''
+    if len(special) == 1:
+        loops = [n for n in ast.walk(ast.Module(body=special[0].body, type_ignores=[])) if isinstance(n, ast.For)]
+        if len(loops) == 1 and 'names_at' in unparse(loops[0].iter):
+            v = unparse(loops[0].target)
+            conds = [n for n in loops[0].body if isinstance(n, ast.If)]
+            if len(conds) == 1 and len(loops[0].body) == 1:
+                detail = unparse(conds[0].test)
+                same_scope = detail in ("getattr(%s, 'scope', None) is flow.scope" % v, '%s.scope is flow.scope' % v,
+                                        "getattr(%s, 'scope', None) == flow.scope" % v, '%s.scope == flow.scope' % v)
+                marks = [c for c in ast.walk(conds[0]) if isinstance(c, ast.Call) and unparse(c.func) == 'use_name'
+                         and unparse(c.args[0]) == v]
+                ok = same_scope and len(marks) == 1 and not conds[0].orelse
+    res.check('C10-R4', 'locals() marks the bindings of its own scope only', ok, LINTER,
+              special[0].lineno if special else lint_fn.lineno,
+              'a call of locals() must mark as used exactly the bindings of the scope it is made in (filter `%s`): marking '
+              'the names of enclosing functions hides their unused locals, marking fewer reports used ones' % detail,
+              sample='locals(): marks n for n in names_at(read) if n.scope is the scope of the call')
     res.assumptions.extend([
         '"parameter of a method" = parameter of a def or lambda whose enclosing scope is a class body',
         'global-declared bindings are not locals and are never candidates',
